@@ -346,3 +346,653 @@ Proof.
   intros tbl f c b args i E H.
   apply (complete_built_good tbl b args i (build_full_ok _ _ _ E)). right. exact H.
 Qed.
+
+(** * The tail of [complete_arg]: what [finish] keeps *)
+Lemma cid_eqb_eq a b : cid_eqb a b = true <-> a = b.
+Proof.
+  destruct a, b; cbn; split; intros H; try discriminate; try (apply beq_eq in H; subst; reflexivity);
+    inversion H; subst; apply beq_refl.
+Qed.
+
+Lemma dedup_ids_incl : forall l seen x, In x (dedup_ids seen l) -> In x l.
+Proof.
+  induction l as [|a t IH]; intros seen x H; cbn in *; [assumption|].
+  destruct (cd_id a) as [i|].
+  - destruct (existsb (cid_eqb i) seen); [right; eauto|]. destruct H; [left; assumption|right; eauto].
+  - destruct H; [left; assumption|right; eauto].
+Qed.
+
+Lemma hide_filter_incl l x : In x (hide_filter l) -> In x l.
+Proof. unfold hide_filter. destruct (existsb _ l); [|auto]. intros H. apply filter_In in H. tauto. Qed.
+
+Lemma finish_incl l x : In x (finish l) -> In x l.
+Proof. unfold finish. intros H. apply hide_filter_incl. eapply dedup_ids_incl; eauto. Qed.
+
+Lemma hide_filter_rule l x : In x (hide_filter l) -> cd_hidden x = false ->
+  forall y, In y (hide_filter l) -> cd_hidden y = false.
+Proof.
+  unfold hide_filter. destruct (existsb (fun a => negb (cd_hidden a)) l) eqn:E.
+  - intros _ _ y Hy. apply filter_In in Hy. destruct Hy as [_ Hy]. apply negb_true_iff in Hy. exact Hy.
+  - intros Hx Hv. exfalso. assert (existsb (fun a => negb (cd_hidden a)) l = true).
+    { apply existsb_exists. exists x. split; [assumption|]. rewrite Hv. reflexivity. }
+    congruence.
+Qed.
+
+(** hidden candidates are offered only when nothing visible is *)
+Lemma finish_rule l x : In x (finish l) -> cd_hidden x = false ->
+  forall y, In y (finish l) -> cd_hidden y = false.
+Proof.
+  unfold finish. intros Hx Hv y Hy.
+  apply (hide_filter_rule l x); [eapply dedup_ids_incl; eauto|assumption|eapply dedup_ids_incl; eauto].
+Qed.
+
+Lemma dedup_ids_repr : forall l seen x i, In x l -> cd_id x = Some i ->
+  existsb (cid_eqb i) seen = false -> exists y, In y (dedup_ids seen l) /\ cd_id y = Some i.
+Proof.
+  induction l as [|a t IH]; intros seen x i Hx Hi Hs; [destruct Hx|].
+  cbn [dedup_ids]. destruct (cd_id a) as [j|] eqn:Ej.
+  - destruct (existsb (cid_eqb j) seen) eqn:Es.
+    + destruct Hx as [->|Hx]; [|eauto]. rewrite Hi in Ej. inversion Ej; subst. congruence.
+    + destruct (cid_eqb i j) eqn:Eij.
+      * apply cid_eqb_eq in Eij. subst. exists a. split; [left; reflexivity|assumption].
+      * destruct Hx as [->|Hx].
+        { rewrite Hi in Ej. inversion Ej; subst.
+          assert (cid_eqb j j = true) by (apply cid_eqb_eq; reflexivity). congruence. }
+        destruct (IH (j :: seen) x i Hx Hi) as [y [Hy Hyi]]; [cbn; rewrite Eij; exact Hs|].
+        exists y. split; [right; assumption|assumption].
+  - destruct Hx as [->|Hx]; [congruence|].
+    destruct (IH seen x i Hx Hi Hs) as [y [Hy Hyi]]. exists y. split; [right; assumption|assumption].
+Qed.
+
+(** a visible raw candidate with an id is represented in the result by a visible candidate of that id *)
+Lemma finish_repr l x i : In x l -> cd_hidden x = false -> cd_id x = Some i ->
+  exists y, In y (finish l) /\ cd_id y = Some i /\ cd_hidden y = false.
+Proof.
+  intros Hx Hv Hi.
+  assert (Hf : In x (hide_filter l)).
+  { unfold hide_filter.
+    assert (E : existsb (fun a => negb (cd_hidden a)) l = true)
+      by (apply existsb_exists; exists x; split; [assumption|rewrite Hv; reflexivity]).
+    rewrite E. apply filter_In. split; [assumption|rewrite Hv; reflexivity]. }
+  destruct (dedup_ids_repr (hide_filter l) [] x i Hf Hi eq_refl) as [y [Hy Hyi]].
+  exists y. split; [exact Hy|]. split; [exact Hyi|].
+  apply (hide_filter_rule l x Hf Hv). eapply dedup_ids_incl; eauto.
+Qed.
+
+(** * Lexer facts *)
+Lemma split_eq_none : forall r f, split_eq r = (f, None) -> r = f.
+Proof.
+  induction r as [|b t IH]; intros f H; cbn in H; [inversion H; reflexivity|].
+  destruct (b =? EQ); [discriminate|].
+  destruct (split_eq t) as [f' v] eqn:E. inversion H; subst. f_equal. apply IH. reflexivity.
+Qed.
+
+Lemma split_eq_noeq : forall r, ~ In EQ r -> split_eq r = (r, None).
+Proof.
+  induction r as [|b t IH]; intros H; cbn; [reflexivity|].
+  destruct (b =? EQ) eqn:E; [apply N.eqb_eq in E; subst; exfalso; apply H; left; reflexivity|].
+  rewrite IH; [reflexivity|]. intros Hin. apply H. right. assumption.
+Qed.
+
+Lemma to_long_novalue w flag u : to_long w = Some (flag, u, None) -> w = dd ++ flag.
+Proof.
+  unfold to_long. destruct w as [|a [|b r]]; try discriminate.
+  destruct ((a =? DASH) && (b =? DASH)) eqn:E; [|discriminate].
+  apply andb_prop in E. destruct E as [Ea Eb]. apply N.eqb_eq in Ea, Eb. subst.
+  destruct r as [|c r]; [discriminate|].
+  destruct (split_eq (c :: r)) as [f v] eqn:Es. intros H. inversion H; subst.
+  apply split_eq_none in Es. rewrite Es. reflexivity.
+Qed.
+
+Lemma to_short_some w short : to_short w = Some short -> w = DASH :: short.
+Proof.
+  unfold to_short. destruct w as [|a r]; [discriminate|].
+  destruct (a =? DASH) eqn:E; [|discriminate]. apply N.eqb_eq in E. subst.
+  destruct r as [|b t]; [discriminate|]. destruct (b =? DASH); [discriminate|].
+  intros H; inversion H; reflexivity.
+Qed.
+
+Lemma utf8_step_dash t : utf8_step (DASH :: t) = Some (DASH, 1%nat).
+Proof. reflexivity. Qed.
+
+Lemma utf8_valid_dash t : utf8_valid (DASH :: t) = true -> utf8_valid t = true.
+Proof. intros H. apply (utf8_valid_skip _ _ _ H (utf8_step_dash t)). Qed.
+
+(** on a well-formed cluster the flag scan that finds no value-taking option has read all of it *)
+Lemma parse_shortflags_loop_all c : forall fuel short leading lead rest,
+  utf8_valid short = true ->
+  parse_shortflags_loop fuel c short leading = SFOk lead None rest -> lead = leading ++ short.
+Proof.
+  induction fuel as [|f IH]; intros short leading lead rest Hv H; [discriminate|].
+  cbn [parse_shortflags_loop] in H. unfold next_flag in H.
+  destruct short as [|b t]; [inversion H; subst; rewrite app_nil_r; reflexivity|].
+  destruct (utf8_valid_nonempty (b :: t) Hv) as [ch [n E]]; [discriminate|]. rewrite E in H.
+  pose proof (utf8_step_encode _ _ _ E) as [Henc _].
+  pose proof (utf8_valid_skip _ _ _ Hv E) as Hv'.
+  assert (Hgoal : forall lead', lead' = (leading ++ utf8_encode ch) ++ skipn n (b :: t) -> lead' = leading ++ b :: t).
+  { intros lead' ->. rewrite <- Henc, <- app_assoc, firstn_skipn. reflexivity. }
+  destruct (find_short_visible c ch) as [o|].
+  - destruct (a_num o) as [r|]; [|discriminate].
+    destruct (r_takes_values r); [discriminate|]. apply Hgoal. eapply IH; eauto.
+  - apply Hgoal. eapply IH; eauto.
+Qed.
+
+(** * Where the raw candidates come from *)
+Definition names_option (cur : cmd) (cd : cand) (aid : id) : Prop :=
+  exists a, In a (c_args cur) /\ a_id a = aid /\
+    ((exists s, cd_value cd = dd ++ s /\ (a_long a = Some s \/ In s (map fst (a_aliases a))))
+     \/ (exists lead s, cd_value cd = [DASH] ++ lead ++ utf8_encode s
+                        /\ (a_short a = Some s \/ In s (map fst (a_short_aliases a))))).
+
+Definition names_subcommand (cur : cmd) (cd : cand) (n : bytes) : Prop :=
+  exists sc, In sc (c_subs cur) /\ c_name sc = n /\ aliases_to sc (cd_value cd) = true.
+
+(** soundness of one candidate against the word [w] and the level [cur] *)
+Definition cand_sound (w : bytes) (cur : cmd) (cd : cand) : Prop :=
+  match cd_id cd with
+  | Some (IdArg aid) => is_prefix w (cd_value cd) = true /\ names_option cur cd aid
+  | Some (IdCmd n) => is_prefix w (cd_value cd) = true /\ names_subcommand cur cd n
+  | None => True
+  end.
+
+Lemma vis_aliases_in {A} (l : list (A * bool)) s : In s (vis_aliases l) -> In s (map fst l).
+Proof. unfold vis_aliases. intros H. apply in_map_iff in H. destruct H as [p [<- Hp]].
+  apply filter_In in Hp. apply in_map. tauto. Qed.
+Lemma hid_aliases_in {A} (l : list (A * bool)) s : In s (hid_aliases l) -> In s (map fst l).
+Proof. unfold hid_aliases. intros H. apply in_map_iff in H. destruct H as [p [<- Hp]].
+  apply filter_In in Hp. apply in_map. tauto. Qed.
+
+Lemma longs_in c x : In x (longs_and_visible_aliases c) ->
+  exists a s, In a (c_args c) /\ x = populate_arg_candidate (dd ++ s) a /\
+              (a_long a = Some s \/ In s (map fst (a_aliases a))).
+Proof.
+  unfold longs_and_visible_aliases. intros H. apply in_flat_map in H. destruct H as [a [Ha Hx]].
+  unfold get_long_and_visible_aliases in Hx. destruct (a_long a) as [l|] eqn:El; [|destruct Hx].
+  apply in_map_iff in Hx. destruct Hx as [s [<- Hs]]. exists a, s. split; [assumption|]. split; [reflexivity|].
+  destruct Hs as [->|Hs]; [left; assumption|right; apply vis_aliases_in; assumption].
+Qed.
+
+Lemma hidden_longs_in c x : In x (hidden_longs_aliases c) ->
+  exists a s, In a (c_args c) /\ x = hide true (populate_arg_candidate (dd ++ s) a) /\
+              In s (map fst (a_aliases a)).
+Proof.
+  unfold hidden_longs_aliases. intros H. apply in_flat_map in H. destruct H as [a [Ha Hx]].
+  unfold get_aliases in Hx. destruct (is_nil (a_aliases a)); [destruct Hx|].
+  apply in_map_iff in Hx. destruct Hx as [s [<- Hs]]. exists a, s. split; [assumption|]. split; [reflexivity|].
+  apply hid_aliases_in; assumption.
+Qed.
+
+Lemma shorts_in c x : In x (shorts_and_visible_aliases c) ->
+  exists a s, In a (c_args c) /\ x = populate_arg_candidate (utf8_encode s) a /\
+              (a_short a = Some s \/ In s (map fst (a_short_aliases a))).
+Proof.
+  unfold shorts_and_visible_aliases. intros H. apply in_flat_map in H. destruct H as [a [Ha Hx]].
+  unfold get_short_and_visible_aliases in Hx. destruct (a_short a) as [l|] eqn:El; [|destruct Hx].
+  apply in_map_iff in Hx. destruct Hx as [s [<- Hs]]. exists a, s. split; [assumption|]. split; [reflexivity|].
+  destruct Hs as [->|Hs]; [left; assumption|right; apply vis_aliases_in; assumption].
+Qed.
+
+Lemma long_cand_sound w c x : In x (longs_and_visible_aliases c) \/ In x (hidden_longs_aliases c) ->
+  is_prefix w (cd_value x) = true -> cand_sound w c x.
+Proof.
+  intros [H|H] Hp.
+  - destruct (longs_in c x H) as [a [s [Ha [-> Hs]]]]. unfold cand_sound; cbn. split; [exact Hp|].
+    exists a. split; [assumption|]. split; [reflexivity|]. left. exists s. split; [reflexivity|assumption].
+  - destruct (hidden_longs_in c x H) as [a [s [Ha [-> Hs]]]]. unfold cand_sound; cbn. split; [exact Hp|].
+    exists a. split; [assumption|]. split; [reflexivity|]. left. exists s. split; [reflexivity|]. right; assumption.
+Qed.
+
+Lemma short_cand_sound w c lead x : In x (shorts_and_visible_aliases c) ->
+  is_prefix w (DASH :: lead ++ cd_value x) = true -> cand_sound w c (add_prefix ([DASH] ++ lead) x).
+Proof.
+  intros H Hp. destruct (shorts_in c x H) as [a [s [Ha [-> Hs]]]].
+  unfold cand_sound, add_prefix, populate_arg_candidate in *. cbn [cd_id cd_value] in *.
+  split; [exact Hp|].
+  exists a. split; [assumption|]. split; [reflexivity|]. right. exists lead, s.
+  cbn [cd_value]. split; [reflexivity|assumption].
+Qed.
+
+Lemma is_prefix_nil s : is_prefix [] s = true.
+Proof. unfold is_prefix. destruct s; reflexivity. Qed.
+
+Lemma dd_prefix_dash s : is_prefix [DASH] (dd ++ s) = true.
+Proof. reflexivity. Qed.
+Lemma dd_prefix_dd s : is_prefix dd (dd ++ s) = true.
+Proof. unfold is_prefix. apply starts_with_app. Qed.
+
+Lemma complete_arg_value_ids tbl v a l : complete_arg_value tbl v a = Some l -> forall x, In x l -> cd_id x = None.
+Proof.
+  unfold complete_arg_value.
+  destruct (match rsplit_delimiter v (a_delim a) with Some (p, v0) => (Some p, v0) | None => (None, v) end) as [prefix v'].
+  destruct (possible_values tbl a) as [pvs|]; [|discriminate].
+  intros H; inversion H; subst; clear H. intros x Hx.
+  assert (Hbase : forall y, In y (match pvs with
+                      | Some l0 => if utf8_valid v'
+                          then map (fun p => mkCand (fst p) None (snd p)) (filter (fun p => is_prefix v' (fst p)) l0)
+                          else []
+                      | None => [] end) -> cd_id y = None).
+  { intros y Hy. destruct pvs as [l0|]; [|destruct Hy]. destruct (utf8_valid v'); [|destruct Hy].
+    apply in_map_iff in Hy. destruct Hy as [p [<- _]]. reflexivity. }
+  destruct prefix as [p|]; [|auto].
+  apply in_map_iff in Hx. destruct Hx as [y [<- Hy]]. cbn. auto.
+Qed.
+
+Lemma cand_sound_noid w c x : cd_id x = None -> cand_sound w c x.
+Proof. unfold cand_sound. intros ->. exact I. Qed.
+
+(** [complete_option]: every candidate is sound *)
+Lemma complete_option_sound tbl w c l : complete_option tbl w c = COk l ->
+  forall x, In x l -> cand_sound w c x.
+Proof.
+  unfold complete_option.
+  destruct (is_empty w) eqn:E0.
+  { destruct w; [|discriminate]. intros H; inversion H; subst; clear H. intros x Hx.
+    apply in_app_or in Hx. destruct Hx as [Hx|Hx]; [apply long_cand_sound; [left; assumption|apply is_prefix_nil]|].
+    apply in_app_or in Hx. destruct Hx as [Hx|Hx]; [apply long_cand_sound; [right; assumption|apply is_prefix_nil]|].
+    apply in_map_iff in Hx. destruct Hx as [y [<- Hy]].
+    apply (short_cand_sound [] c [] y Hy). apply is_prefix_nil. }
+  destruct (is_stdio w) eqn:E1.
+  { destruct w as [|b [|]]; try discriminate. cbn in E1. apply N.eqb_eq in E1. subst.
+    intros H; inversion H; subst; clear H. intros x Hx.
+    apply in_app_or in Hx. destruct Hx as [Hx|Hx].
+    { apply in_map_iff in Hx. destruct Hx as [y [<- Hy]]. apply (short_cand_sound [DASH] c [] y Hy). unfold is_prefix. apply (starts_with_app [DASH]). }
+    assert (Hd : forall z, In z (longs_and_visible_aliases c) \/ In z (hidden_longs_aliases c) ->
+                           is_prefix [DASH] (cd_value z) = true).
+    { intros z [Hz|Hz].
+      - destruct (longs_in c z Hz) as [a [s [_ [-> _]]]]. apply dd_prefix_dash.
+      - destruct (hidden_longs_in c z Hz) as [a [s [_ [-> _]]]]. apply dd_prefix_dash. }
+    apply in_app_or in Hx. destruct Hx as [Hx|Hx]; apply long_cand_sound; auto. }
+  destruct (is_escape w) eqn:E2.
+  { destruct w as [|a [|b [|]]]; try discriminate. cbn in E2. apply andb_prop in E2. destruct E2 as [Ea Eb].
+    apply N.eqb_eq in Ea, Eb. subst.
+    intros H; inversion H; subst; clear H. intros x Hx.
+    assert (Hd : forall z, In z (longs_and_visible_aliases c) \/ In z (hidden_longs_aliases c) ->
+                           is_prefix [DASH; DASH] (cd_value z) = true).
+    { intros z [Hz|Hz].
+      - destruct (longs_in c z Hz) as [a [s [_ [-> _]]]]. apply dd_prefix_dd.
+      - destruct (hidden_longs_in c z Hz) as [a [s [_ [-> _]]]]. apply dd_prefix_dd. }
+    apply in_app_or in Hx. destruct Hx as [Hx|Hx]; apply long_cand_sound; auto. }
+  destruct (to_long w) as [[[flag u] value]|] eqn:El.
+  { destruct u; [|intros H; inversion H; subst; intros x []].
+    destruct value as [v|].
+    - destruct (List.find _ (c_args c)) as [a|]; [|intros H; inversion H; subst; intros x []].
+      destruct (complete_arg_value tbl v a) as [l0|] eqn:Ev; [|discriminate].
+      intros H; inversion H; subst; clear H. intros x Hx. apply in_map_iff in Hx. destruct Hx as [y [<- Hy]].
+      apply cand_sound_noid. cbn. eapply complete_arg_value_ids; eauto.
+    - apply to_long_novalue in El. subst w.
+      intros H; inversion H; subst; clear H. intros x Hx.
+      apply in_app_or in Hx. destruct Hx as [Hx|Hx]; apply filter_In in Hx; destruct Hx as [Hx Hp];
+        apply long_cand_sound; auto. }
+  destruct (to_short w) as [short|] eqn:Es; [|intros H; inversion H; subst; intros x []].
+  destruct (negb (sf_is_negative_number short)); [|intros H; inversion H; subst; intros x []].
+  destruct (parse_shortflags c short) as [| |leading [o|] short'] eqn:Ep; try discriminate.
+  - destruct (match next_flag short' with
+              | Some (FOk ch, s2) => if ch =? EQ then (true, s2) else (false, short')
+              | _ => (false, short') end) as [he s2].
+    destruct (complete_arg_value tbl _ o) as [l0|] eqn:Ev; [|discriminate].
+    intros H; inversion H; subst; clear H. intros x Hx. apply in_map_iff in Hx. destruct Hx as [y [<- Hy]].
+    apply cand_sound_noid. cbn. eapply complete_arg_value_ids; eauto.
+  - destruct (utf8_valid w) eqn:Ev; [|intros H; inversion H; subst; intros x []].
+    apply to_short_some in Es. subst w.
+    unfold parse_shortflags in Ep. apply parse_shortflags_loop_all in Ep; [|apply utf8_valid_dash; assumption].
+    cbn [app] in Ep. subst leading.
+    intros H; inversion H; subst; clear H. intros x Hx. apply in_map_iff in Hx. destruct Hx as [y [<- Hy]].
+    apply short_cand_sound; [assumption|]. unfold is_prefix.
+    change (DASH :: short ++ cd_value y) with ((DASH :: short) ++ cd_value y). apply starts_with_app.
+Qed.
+
+(** [complete_subcommand] *)
+Lemma insert_cand_in x c l : In x (insert_cand c l) <-> c = x \/ In x l.
+Proof.
+  induction l as [|d t IH]; cbn; [tauto|].
+  destruct (ble (cd_value c) (cd_value d)); cbn; [tauto|]. rewrite IH. tauto.
+Qed.
+Lemma sort_cands_in x l : In x (sort_cands l) <-> In x l.
+Proof.
+  induction l as [|a t IH]; cbn; [tauto|]. rewrite insert_cand_in, IH. tauto.
+Qed.
+Lemma cand_eqb_eq a b : cand_eqb a b = true -> a = b.
+Proof.
+  unfold cand_eqb. intros H. apply andb_prop in H. destruct H as [H H3]. apply andb_prop in H. destruct H as [H1 H2].
+  destruct a as [va ia ha], b as [vb ib hb]; cbn in *.
+  apply beq_eq in H1. apply Bool.eqb_prop in H3. subst. f_equal.
+  destruct ia as [x|], ib as [y|]; cbn in H2; try discriminate; [|reflexivity].
+  apply cid_eqb_eq in H2. subst. reflexivity.
+Qed.
+Lemma dedup_adjacent_in : forall l x, In x (dedup_adjacent l) <-> In x l.
+Proof.
+  induction l as [|a t IH]; intros x; [tauto|]. cbn [dedup_adjacent]. destruct t as [|b t'].
+  - tauto.
+  - destruct (cand_eqb a b) eqn:E.
+    + apply cand_eqb_eq in E. subst. rewrite IH. cbn. tauto.
+    + cbn [In]. rewrite IH. cbn. tauto.
+Qed.
+
+Lemma subcommands_in c x : In x (subcommands c) ->
+  exists sc n, In sc (c_subs c) /\ cd_value x = n /\ cd_id x = Some (IdCmd (c_name sc)) /\
+               (n = c_name sc \/ In n (map fst (c_aliases sc))).
+Proof.
+  unfold subcommands. intros H. apply in_flat_map in H. destruct H as [sc [Hsc Hx]].
+  apply in_app_or in Hx. destruct Hx as [Hx|Hx]; apply in_map_iff in Hx; destruct Hx as [n [<- Hn]];
+    exists sc, n; (split; [assumption|]); (split; [reflexivity|]); (split; [reflexivity|]).
+  - destruct Hn as [<-|Hn]; [left; reflexivity|right; apply vis_aliases_in; assumption].
+  - right. apply hid_aliases_in; assumption.
+Qed.
+
+Lemma complete_subcommand_sound w c x : In x (complete_subcommand w c) -> cand_sound w c x.
+Proof.
+  unfold complete_subcommand. rewrite dedup_adjacent_in, sort_cands_in, filter_In. intros [Hx Hp].
+  destruct (subcommands_in c x Hx) as [sc [n [Hsc [Hv [Hi Hn]]]]].
+  unfold cand_sound. rewrite Hi. split; [exact Hp|]. exists sc. split; [assumption|]. split; [reflexivity|].
+  unfold aliases_to, all_aliases. rewrite Hv. destruct Hn as [->|Hn].
+  - rewrite beq_refl. reflexivity.
+  - apply orb_true_iff. right. apply existsb_exists. exists n. split; [assumption|apply beq_refl].
+Qed.
+
+(** decomposition of a successful [complete_arg] in state [ValueDone] *)
+Lemma value_done_inv tbl w c pi l : complete_arg_value_done tbl w c pi = COk l ->
+  exists posv opts,
+    (forall x, In x posv -> cd_id x = None) /\ complete_option tbl w c = COk opts /\
+    l = finish ((if utf8_valid w then complete_subcommand w c else []) ++ posv ++ opts).
+Proof.
+  unfold complete_arg_value_done. intros H.
+  destruct (match find_pos c pi with Some p => of_opt 535 (complete_arg_value tbl w p) | None => COk [] end)
+    as [| |posv| |] eqn:Ep; try discriminate.
+  cbn [cbind] in H. destruct (complete_option tbl w c) as [| |opts| |] eqn:Eo; try discriminate.
+  cbn [cbind] in H. inversion H; subst. exists posv, opts. split; [|split; reflexivity].
+  destruct (find_pos c pi) as [p|].
+  - destruct (complete_arg_value tbl w p) as [l0|] eqn:Ev; [|discriminate]. inversion Ep; subst.
+    eapply complete_arg_value_ids; eauto.
+  - inversion Ep; subst. intros x [].
+Qed.
+
+(** C18_sound (i), (ii): state [ValueDone] *)
+Theorem value_done_sound tbl w c pi l : complete_arg_value_done tbl w c pi = COk l ->
+  forall x, In x l -> cand_sound w c x.
+Proof.
+  intros H x Hx. destruct (value_done_inv _ _ _ _ _ H) as [posv [opts [Hpos [Ho ->]]]].
+  apply finish_incl in Hx. apply in_app_or in Hx. destruct Hx as [Hx|Hx].
+  - destruct (utf8_valid w); [apply complete_subcommand_sound; assumption|destruct Hx].
+  - apply in_app_or in Hx. destruct Hx as [Hx|Hx]; [apply cand_sound_noid; auto|].
+    eapply complete_option_sound; eauto.
+Qed.
+
+(** * Completeness in state [ValueDone] *)
+Lemma utf8_valid_dd r : utf8_valid (dd ++ r) = true -> utf8_valid r = true.
+Proof. intros H. apply utf8_valid_dash. apply utf8_valid_dash. exact H. Qed.
+
+Lemma noeq_prefix : forall r s, starts_with s r = true -> ~ In EQ s -> ~ In EQ r.
+Proof.
+  intros r s H Hs Hr. apply starts_with_spec in H. destruct H as [t ->]. apply Hs. apply in_or_app. left; assumption.
+Qed.
+
+(** the long spelling [--s] of a visible argument extends the (well-formed) word: it is among the
+    candidates of [complete_option] *)
+Lemma complete_option_has_long tbl w c a s :
+  In a (c_args c) -> a_long a <> None -> (a_long a = Some s \/ In s (vis_aliases (a_aliases a))) ->
+  ~ In EQ s -> utf8_valid w = true -> is_prefix w (dd ++ s) = true ->
+  exists opts, complete_option tbl w c = COk opts /\ In (populate_arg_candidate (dd ++ s) a) opts.
+Proof.
+  intros Ha Hl Hs Hne Hv Hp.
+  assert (Hin : In (populate_arg_candidate (dd ++ s) a) (longs_and_visible_aliases c)).
+  { unfold longs_and_visible_aliases. apply in_flat_map. exists a. split; [assumption|].
+    unfold get_long_and_visible_aliases. destruct (a_long a) as [l|] eqn:El; [|tauto].
+    apply (in_map (fun s0 => populate_arg_candidate (dd ++ s0) a)).
+    destruct Hs as [Hs|Hs]; [inversion Hs; left; reflexivity|right; assumption]. }
+  unfold complete_option. unfold is_prefix, dd in Hp.
+  destruct w as [|x [|y [|z r]]].
+  - eexists. split; [reflexivity|]. apply in_or_app. left; assumption.
+  - cbn [app starts_with] in Hp. apply andb_prop in Hp. destruct Hp as [Hx _]. apply N.eqb_eq in Hx. subst x.
+    eexists. split; [reflexivity|]. apply in_or_app. right. apply in_or_app. left; assumption.
+  - cbn [app starts_with] in Hp. apply andb_prop in Hp. destruct Hp as [Hx Hp].
+    apply andb_prop in Hp. destruct Hp as [Hy _].
+    apply N.eqb_eq in Hx, Hy. subst x y.
+    eexists. split; [reflexivity|]. apply in_or_app. left; assumption.
+  - assert (Hxy : x = DASH /\ y = DASH /\ starts_with s (z :: r) = true).
+    { cbn [app starts_with] in Hp. apply andb_prop in Hp. destruct Hp as [Hx Hp].
+      apply andb_prop in Hp. destruct Hp as [Hy Hr].
+      apply N.eqb_eq in Hx, Hy. subst x y. auto. }
+    destruct Hxy as [-> [-> Hr]].
+    change (is_empty (DASH :: DASH :: z :: r)) with false.
+    change (is_stdio (DASH :: DASH :: z :: r)) with false.
+    change (is_escape (DASH :: DASH :: z :: r)) with false.
+    cbv iota.
+    assert (El : to_long (DASH :: DASH :: z :: r) = Some (z :: r, utf8_valid (z :: r), None)).
+    { unfold to_long. change ((DASH =? DASH) && (DASH =? DASH)) with true. cbv iota.
+      rewrite (split_eq_noeq (z :: r) (noeq_prefix _ _ Hr Hne)). reflexivity. }
+    rewrite El. rewrite (utf8_valid_dd (z :: r) Hv).
+    eexists. split; [reflexivity|]. apply in_or_app. left. apply filter_In. split; [assumption|].
+    unfold is_prefix, populate_arg_candidate. cbn [cd_value].
+    apply starts_with_spec. apply starts_with_spec in Hr. destruct Hr as [t ->]. exists t.
+    rewrite app_assoc. reflexivity.
+Qed.
+
+Lemma in_finish_of_parts l1 l2 l3 (x : cand) : In x l3 -> In x (l1 ++ l2 ++ l3).
+Proof. intros H. apply in_or_app. right. apply in_or_app. right. assumption. Qed.
+
+(** C18_complete, options *)
+Theorem value_done_complete_long tbl w c pi l a s :
+  complete_arg_value_done tbl w c pi = COk l ->
+  In a (c_args c) -> a_hide a = false -> a_long a <> None ->
+  (a_long a = Some s \/ In s (vis_aliases (a_aliases a))) ->
+  ~ In EQ s -> utf8_valid w = true -> is_prefix w (dd ++ s) = true ->
+  exists y, In y l /\ cd_id y = Some (IdArg (a_id a)) /\ cd_hidden y = false.
+Proof.
+  intros H Ha Hh Hl Hs Hne Hv Hp.
+  destruct (value_done_inv _ _ _ _ _ H) as [posv [opts [_ [Ho ->]]]].
+  destruct (complete_option_has_long tbl w c a s Ha Hl Hs Hne Hv Hp) as [opts' [Ho' Hin]].
+  rewrite Ho in Ho'. inversion Ho'; subst opts'.
+  eapply finish_repr; [apply in_finish_of_parts; exact Hin| |]; cbn; [assumption|reflexivity].
+Qed.
+
+(** C18_complete, subcommands *)
+Theorem value_done_complete_sub tbl w c pi l sc n :
+  complete_arg_value_done tbl w c pi = COk l ->
+  In sc (c_subs c) -> is_hide_set sc = false ->
+  (n = c_name sc \/ In n (vis_aliases (c_aliases sc))) ->
+  utf8_valid w = true -> is_prefix w n = true ->
+  exists y, In y l /\ cd_id y = Some (IdCmd (c_name sc)) /\ cd_hidden y = false.
+Proof.
+  intros H Hsc Hh Hn Hv Hp.
+  destruct (value_done_inv _ _ _ _ _ H) as [posv [opts [_ [_ ->]]]]. rewrite Hv.
+  eapply (finish_repr _ (populate_command_candidate n sc)); [| |reflexivity].
+  - apply in_or_app. left. unfold complete_subcommand.
+    rewrite dedup_adjacent_in, sort_cands_in, filter_In. split; [|exact Hp].
+    unfold subcommands. apply in_flat_map. exists sc. split; [assumption|]. apply in_or_app. left.
+    apply (in_map (fun s0 => populate_command_candidate s0 sc)).
+    destruct Hn as [->|Hn]; [left; reflexivity|right; assumption].
+  - cbn. assumption.
+Qed.
+
+(** hidden candidates are offered only when no visible candidate is: every state *)
+Lemma cbind_ok_inv r f l : cbind r f = COk l -> exists l0, r = COk l0 /\ f l0 = COk l.
+Proof. destruct r; cbn; try discriminate. intros H. eexists; split; [reflexivity|assumption]. Qed.
+
+Lemma complete_arg_is_finish tbl w c pi st l : complete_arg tbl w c pi st = COk l -> exists raw, l = finish raw.
+Proof.
+  destruct st as [|idx cnt|o cnt]; cbn [complete_arg].
+  - intros H. destruct (value_done_inv _ _ _ _ _ H) as [posv [opts [_ [_ ->]]]]. eexists; reflexivity.
+  - destruct (find_pos c pi); [|intros H; inversion H; eexists; reflexivity].
+    intros H. apply cbind_ok_inv in H. destruct H as [l0 [_ H]].
+    apply cbind_ok_inv in H. destruct H as [l1 [_ H]]. inversion H. eexists; reflexivity.
+  - intros H. apply cbind_ok_inv in H. destruct H as [l0 [_ H]].
+    apply cbind_ok_inv in H. destruct H as [l1 [_ H]]. inversion H. eexists; reflexivity.
+Qed.
+
+Theorem hidden_only_if_no_visible tbl w c pi st l : complete_arg tbl w c pi st = COk l ->
+  forall x, In x l -> cd_hidden x = false -> forall y, In y l -> cd_hidden y = false.
+Proof.
+  intros H x Hx Hv y Hy. destruct (complete_arg_is_finish _ _ _ _ _ _ H) as [raw ->].
+  exact (finish_rule raw x Hx Hv y Hy).
+Qed.
+
+(** * (iii) the parser's lookups resolve what is offered *)
+Lemma find_exists {A} (f : A -> bool) l x : In x l -> f x = true -> exists y, List.find f l = Some y.
+Proof.
+  induction l as [|a t IH]; intros Hx Hf; [destruct Hx|]. cbn. destruct (f a) eqn:E; [eexists; reflexivity|].
+  destruct Hx as [->|Hx]; [congruence|auto].
+Qed.
+
+Lemma names_subcommand_resolves cur cd n : names_subcommand cur cd n ->
+  exists sc', find_subcommand cur (cd_value cd) = Some sc' /\ aliases_to sc' (cd_value cd) = true.
+Proof.
+  intros [sc [Hsc [_ Ha]]]. unfold find_subcommand.
+  destruct (find_exists (fun s => aliases_to s (cd_value cd)) (c_subs cur) sc Hsc Ha) as [y Hy].
+  exists y. split; [assumption|]. apply find_some in Hy. tauto.
+Qed.
+
+Lemma keymap_in c a k : In a (c_args c) -> In k (arg_keys a) -> In (k, a) (keymap c).
+Proof.
+  intros Ha Hk. unfold keymap. apply in_flat_map. exists a. split; [assumption|].
+  apply in_map_iff. exists k. split; [reflexivity|assumption].
+Qed.
+
+Lemma get_long_resolves c a s : In a (c_args c) -> a_index a = None ->
+  (a_long a = Some s \/ In s (map fst (a_aliases a))) -> get_long c s <> None.
+Proof.
+  intros Ha Hi Hs. unfold get_long.
+  assert (Hk : In (KLong s, a) (keymap c)).
+  { apply keymap_in; [assumption|]. unfold arg_keys. rewrite Hi. apply in_or_app. right.
+    destruct Hs as [Hs|Hs].
+    - rewrite Hs. apply in_or_app. left. left. reflexivity.
+    - apply in_or_app. right. apply in_or_app. right. apply in_map_iff in Hs. destruct Hs as [p [<- Hp]].
+      apply in_map_iff. exists p. split; [reflexivity|assumption]. }
+  destruct (find_exists (fun p => match fst p with KLong l' => beq l' s | _ => false end) (keymap c) _ Hk)
+    as [y Hy]; [cbn; apply beq_refl|]. rewrite Hy. discriminate.
+Qed.
+
+Lemma get_short_resolves c a s : In a (c_args c) -> a_index a = None ->
+  (a_short a = Some s \/ In s (map fst (a_short_aliases a))) -> get_short c s <> None.
+Proof.
+  intros Ha Hi Hs. unfold get_short.
+  assert (Hk : In (KShort s, a) (keymap c)).
+  { apply keymap_in; [assumption|]. unfold arg_keys. rewrite Hi.
+    destruct Hs as [Hs|Hs].
+    - rewrite Hs. left. reflexivity.
+    - apply in_or_app. right. apply in_or_app. right. apply in_or_app. left.
+      apply in_map_iff in Hs. destruct Hs as [p [<- Hp]].
+      apply in_map_iff. exists p. split; [reflexivity|assumption]. }
+  destruct (find_exists (fun p => match fst p with KShort s' => s' =? s | _ => false end) (keymap c) _ Hk)
+    as [y Hy]; [cbn; apply N.eqb_refl|]. rewrite Hy. discriminate.
+Qed.
+
+(** a validated option (it has a long or a short name) carries no positional index *)
+Lemma assert_arg_option_no_index a : assert_arg a = true -> a_is_positional a = false -> a_index a = None.
+Proof.
+  unfold assert_arg. intros H Hp. split_andb.
+  destruct (a_index a); [|reflexivity]. cbn in *. rewrite Hp in *. discriminate.
+Qed.
+
+(** what "accepted as such by the parser model" means for a candidate *)
+Definition cand_resolves (cur : cmd) (cd : cand) : Prop :=
+  match cd_id cd with
+  | Some (IdArg aid) =>
+      exists a, In a (c_args cur) /\ a_id a = aid /\
+        (a_is_positional a = false ->
+           (exists s, cd_value cd = dd ++ s /\ get_long cur s <> None)
+           \/ (exists lead s, cd_value cd = [DASH] ++ lead ++ utf8_encode s /\ get_short cur s <> None))
+  | Some (IdCmd n) =>
+      exists sc', find_subcommand cur (cd_value cd) = Some sc' /\ aliases_to sc' (cd_value cd) = true
+  | None => True
+  end.
+
+Lemma cand_sound_resolves w cur cd : args_ok cur -> cand_sound w cur cd -> cand_resolves cur cd.
+Proof.
+  intros Hok. unfold cand_sound, cand_resolves. destruct (cd_id cd) as [[aid|n]|]; [| |auto].
+  - intros [_ [a [Ha [Hid Hn]]]]. exists a. split; [assumption|]. split; [assumption|]. intros Hp.
+    pose proof (assert_arg_option_no_index a (Hok a Ha) Hp) as Hi.
+    destruct Hn as [[s [Hv Hs]]|[lead [s [Hv Hs]]]].
+    + left. exists s. split; [assumption|]. eapply get_long_resolves; eauto.
+    + right. exists lead, s. split; [assumption|]. eapply get_short_resolves; eauto.
+  - intros [_ Hn]. eapply names_subcommand_resolves; eauto.
+Qed.
+
+(** * Tying the level to the shadow parse of the preceding words *)
+Lemma start_walk_reach b args i w cur pi st esc : tree_all args_ok b ->
+  start_walk b args i = WAt w cur pi st esc -> reach b cur /\ args_ok cur.
+Proof.
+  intros Ht H. unfold start_walk in H.
+  destruct (shadow_walk_ok
+     (skipn (N.to_nat (if is_set s_no_binary_name b then 0 else 1)) args)
+     (if is_set s_no_binary_name b then 0 else 1)
+     (sat_add (N.min i (N.of_nat (length args))) 1) b 1 false ValueDone Ht I)
+    as [E|[w' [c' [p' [s' [e' [E [Hr _]]]]]]]]; rewrite E in H; [discriminate|].
+  inversion H; subst. split; [assumption|]. apply (tree_all_here args_ok). eapply tree_all_reach; eauto.
+Qed.
+
+(** C18_sound: full statement over [complete_model]'s pieces *)
+Theorem sound : forall tbl c b args i w cur pi esc l cd,
+  build_full (build_fuel c) c = BOk b ->
+  start_walk b args i = WAt w cur pi ValueDone esc ->
+  complete_arg tbl w cur pi ValueDone = COk l -> In cd l ->
+  reach b cur /\ cand_sound w cur cd /\ cand_resolves cur cd.
+Proof.
+  intros tbl c b args i w cur pi esc l cd Hb Hw Hc Hin.
+  destruct (start_walk_reach b args i w cur pi ValueDone esc (build_full_ok _ _ _ Hb) Hw) as [Hr Hok].
+  pose proof (value_done_sound tbl w cur pi l Hc cd Hin) as Hs.
+  split; [assumption|]. split; [assumption|]. eapply cand_sound_resolves; eauto.
+Qed.
+
+(** [complete_model] succeeds exactly through these pieces *)
+Theorem model_ok_inv tbl c args i l : complete_model tbl c args i = COk l ->
+  exists b w cur pi st esc,
+    build_full (build_fuel c) c = BOk b /\ start_walk b args i = WAt w cur pi st esc /\
+    complete_arg tbl w cur pi st = COk l.
+Proof.
+  unfold complete_model. destruct (build_full (build_fuel c) c) as [b| |] eqn:Eb; try discriminate.
+  unfold complete_built. destruct (start_walk b args i) as [| | |w cur pi st esc] eqn:Ew; try discriminate.
+  intros H. exists b, w, cur, pi, st, esc. auto.
+Qed.
+
+(** * Non-vacuity: the hypotheses of the theorems above are satisfiable *)
+Definition s_opt : bytes := [111; 112; 116].
+Definition s_optv : bytes := [111; 112; 116; 118].
+Definition s_sub : bytes := [115; 117; 98].
+Definition ex_cmd : cmd :=
+  (cmd_new [112])
+    <| c_args := [ (arg_new s_opt) <| a_long := Some s_opt |> <| a_short := Some 111 |>
+                                   <| a_aliases := [(s_optv, true)] |> <| a_action := Some ASet |>;
+                   (arg_new [102]) <| a_short := Some 102 |> <| a_action := Some ASetTrue |> <| a_hide := true |> ] |>
+    <| c_subs := [ (cmd_new s_sub) <| c_aliases := [([115; 118], true); ([115; 104], false)] |> ] |>.
+(** [p --o], cursor on [--o] *)
+Definition ex_args : list bytes := [[112]; [45; 45; 111]].
+
+Example ex_sound_hyps :
+  match build_full (build_fuel ex_cmd) ex_cmd with
+  | BOk b => match start_walk b ex_args 1 with
+             | WAt w cur pi ValueDone false =>
+                 match complete_arg [] w cur pi ValueDone with COk (_ :: _) => True | _ => False end
+             | _ => False end
+  | _ => False end.
+Proof. vm_compute. exact I. Qed.
+
+(** the same line: the visible option [opt] with spelling [--opt] extending [--o] *)
+Example ex_complete_long_hyps :
+  match build_full (build_fuel ex_cmd) ex_cmd with
+  | BOk b => match start_walk b ex_args 1 with
+             | WAt w cur pi ValueDone false =>
+                 existsb (fun a => negb (a_hide a) && is_some (a_long a)
+                                   && match a_long a with Some s => is_prefix w (dd ++ s) && negb (existsb (N.eqb EQ) s)
+                                                     | None => false end) (c_args cur)
+                 && utf8_valid w = true
+             | _ => False end
+  | _ => False end.
+Proof. vm_compute. reflexivity. Qed.
+
+(** [p s], cursor on [s]: the visible subcommand [sub] extends it *)
+Example ex_complete_sub_hyps :
+  match build_full (build_fuel ex_cmd) ex_cmd with
+  | BOk b => match start_walk b [[112]; [115]] 1 with
+             | WAt w cur pi ValueDone false =>
+                 existsb (fun sc => negb (is_hide_set sc) && is_prefix w (c_name sc)) (c_subs cur)
+                 && utf8_valid w = true
+             | _ => False end
+  | _ => False end.
+Proof. vm_compute. reflexivity. Qed.
+
+(** a result containing a visible candidate (hence no hidden one): [p -] *)
+Example ex_hidden_hyps :
+  match complete_model [] ex_cmd [[112]; [45]] 1 with
+  | COk l => existsb (fun x => negb (cd_hidden x)) l = true
+  | _ => False end.
+Proof. vm_compute. reflexivity. Qed.
